@@ -48,6 +48,13 @@ def expectedWriters : List String :=
 theorem source_writers :
     (methods.filter (fun m => m.beginW == 1 && m.commits == 1)).map (·.name) = expectedWriters := by decide
 
+/-- (facts, regenerated from the source on every run) **A transaction can be asked for nothing but `Set`, `Get`, `Delete`,
+    `Cursor`, `Commit`, `Rollback`**: package `store` declares these three interfaces and no other - in particular no
+    optional interface through which an adapter could be asked to write outside the transaction (a range drop, a
+    batch writer): "one store transaction per public write, committed once" covers every write there is. -/
+theorem store_interfaces_are_the_reviewed_ones : storeInterfaces =
+    ["Cursor: Seek Next Valid Item Close", "Store: Begin Close", "Tx: Set Get Delete Cursor Commit Rollback"] := by decide
+
 /-- (facts) bbolt is opened with default options: fsync on commit, no NoSync / NoFreelistSync -/
 theorem bbolt_default_options : boltOpenArgs.getLast? = some "nil" := by decide
 
@@ -128,7 +135,7 @@ end CV.Props.C05
 namespace CV.Props.C05
 
 /-- (facts, regenerated from the source on every run) **The source text the model transcribes is the text of the
-    current source**: the bodies (comments and layout removed) of the 11 functions the model behind C05 was written from and
+    current source**: the bodies (comments and layout removed) of the 14 functions the model behind C05 was written from and
     validated against.  Any edit of one of them breaks this theorem at build time; the check then searches with the
     property's own oracles for a failing input, and reports `no-failing-input-found` if it finds none: the model then
     has to be re-validated against the new text (and this block regenerated). -/
@@ -143,7 +150,10 @@ theorem source_decision_logic : CV.Facts.logicC05 = [
   "bbolt.boltStore.createRootBucketIfNotExists: { tx, err := store.db.Begin(true) if err != nil { return err } defer tx.Rollback() _, err = tx.CreateBucketIfNotExists([]byte(rootBucket)) if err != nil { return err } return tx.Commit() }", 
   "clover..Open: { dataStore, err := bbolt.Open(dir) if err != nil { return nil, err } return OpenWithStore(dataStore) }", 
   "clover..OpenWithStore: { return &DB{store: store}, nil }", 
-  "clover.DB.Close: { if atomic.CompareAndSwapUint32(&db.closed, 0, 1) { return db.store.Close() } return nil }"] := by rfl
+  "clover.DB.Close: { if atomic.CompareAndSwapUint32(&db.closed, 0, 1) { return db.store.Close() } return nil }", 
+  "index.rangeIndex.Add: { encodedKey, err := idx.encodeValueAndId(v, docId) if err != nil { return err } return idx.tx.Set(encodedKey, nil) }", 
+  "index.rangeIndex.Drop: { cursor, err := idx.tx.Cursor(true) if err != nil { return err } defer cursor.Close() prefix := idx.getKeyPrefix() cursor.Seek(prefix) for ; cursor.Valid(); cursor.Next() { item, err := cursor.Item() if err != nil { return err } if !bytes.HasPrefix(item.Key, prefix) { return nil } if err := idx.tx.Delete(item.Key); err != nil { return err } } return nil }", 
+  "index.rangeIndex.Remove: { encodedKey, err := idx.encodeValueAndId(value, docId) if err != nil { return err } return idx.tx.Delete(encodedKey) }"] := by rfl
 
 end CV.Props.C05
 -- SOURCE-TEXT-END
